@@ -1009,3 +1009,710 @@ Proof.
   - unfold format_list. rewrite format_nodes_nosh by exact Hn. exact Hf.
   - unfold reexpand, piece_tokens, spec_expand. rewrite Hr. cbn [app]. apply Hs.
 Qed.
+
+(* ================================================================== Part 3: update_with_new_values *)
+Lemma find_put_same : forall s st, find_sc (sid s) (put_sc s st) = Some s.
+Proof.
+  intros s st; induction st as [|a r IH]; cbn.
+  - rewrite Z.eqb_refl. reflexivity.
+  - destruct (Z.eqb_spec (sid a) (sid s)) as [E|E]; cbn.
+    + rewrite Z.eqb_refl. reflexivity.
+    + destruct (Z.eqb_spec (sid a) (sid s)); [contradiction|]. exact IH.
+Qed.
+
+Lemma find_put_other : forall id s st, id <> sid s -> find_sc id (put_sc s st) = find_sc id st.
+Proof.
+  intros id s st H; induction st as [|a r IH]; cbn.
+  - destruct (Z.eqb_spec (sid s) id); [congruence|reflexivity].
+  - destruct (Z.eqb_spec (sid a) (sid s)) as [E|E]; cbn.
+    + destruct (Z.eqb_spec (sid s) id); [congruence|].
+      destruct (Z.eqb_spec (sid a) id); [congruence|]. reflexivity.
+    + destruct (Z.eqb_spec (sid a) id); [reflexivity|]. exact IH.
+Qed.
+
+Lemma sc_inv_static : forall s s', static_eq s s' -> snodes s' = snodes s -> sc_inv s -> sc_inv s'.
+Proof.
+  intros s s' (_&Hk&_&_&_&_&_&_&_&Hsp) Hn I. unfold sc_inv in *. rewrite Hk, Hn, Hsp. exact I.
+Qed.
+
+Lemma sc_inv_empty : forall s, snodes s = [] -> sc_inv s.
+Proof.
+  intros s H. unfold sc_inv, all_jumps, all_vals. rewrite H.
+  destruct (skind s); cbn; repeat split; try constructor; auto.
+Qed.
+
+(* the entries before the current position, most recent first, grouped by owner *)
+Inductive seg := SFree (v : leaf) | SSc (id : Z) (ns : list leaf).
+Definition seg_entries (g : seg) : list (entry * leaf) :=
+  match g with
+  | SFree v => [(EVal, v)]
+  | SSc id ns => map (fun v => (ESc id, v)) (rev ns)
+  end.
+Definition done_of (segs : list seg) : list (entry * leaf) := flat_map seg_entries segs.
+Definition seg_ids (segs : list seg) : list Z :=
+  flat_map (fun g => match g with SSc id _ => [id] | SFree _ => [] end) segs.
+Definition todo_ids (todo : list (entry * leaf)) : list Z :=
+  flat_map (fun ev => match fst ev with ESc id => [id] | EVal => [] end) todo.
+Definition sc_good (store : list sc) (id : Z) (ns : list leaf) : Prop :=
+  exists s, find_sc id store = Some s /\ sid s = id /\ snodes s = ns /\ sshare s = false /\ sc_inv s.
+Fixpoint free_prefix (n : nat) (segs : list seg) : Prop :=
+  match n with
+  | O => True
+  | S m => match segs with SFree _ :: r => free_prefix m r | _ => False end
+  end.
+
+Lemma free_prefix_le : forall n m segs, free_prefix n segs -> (m <= n)%nat -> free_prefix m segs.
+Proof.
+  induction n as [|n IH]; intros m segs H Hm.
+  - assert (m = 0)%nat by lia. subst. exact I.
+  - destruct m; [exact I|]. cbn in *. destruct segs as [|[v|id ns] r]; try contradiction.
+    apply IH; auto. lia.
+Qed.
+
+Lemma done_of_free : forall fr segs,
+  done_of (map SFree fr ++ segs) = map (fun v => (EVal, v)) fr ++ done_of segs.
+Proof. induction fr; intros; cbn; [reflexivity|]. f_equal. apply IHfr. Qed.
+
+Lemma seg_ids_free : forall fr segs, seg_ids (map SFree fr ++ segs) = seg_ids segs.
+Proof. induction fr; intros; cbn; auto. Qed.
+
+Record Inv (vals : list leaf) (st : zstate) (todo : list (entry * leaf)) (segs : list seg) : Prop := {
+  inv_done : zdone st = done_of segs;
+  inv_vals : rev (map snd (zdone st)) ++ map snd todo = vals;
+  inv_segs : forall id ns, In (SSc id ns) segs -> ns <> [] /\ sc_good (zstore st) id ns;
+  inv_todo : forall id, In id (todo_ids todo) -> sc_good (zstore st) id [];
+  inv_nodup : NoDup (seg_ids segs ++ todo_ids todo);
+  inv_cur : forall id, zcur st = Some id -> exists ns r, segs = SSc id ns :: r;
+  inv_free : zcur st = None -> free_prefix (List.length (zdone st) - 1 - zlast st) segs;
+  inv_fresh : forall id, In id (seg_ids segs ++ todo_ids todo) -> (id < zfresh st)%Z
+}.
+
+(* try_reverse_expansion only takes free values that lie between the previous shortcut and this one *)
+Lemma zrev_ok : forall b k s segs s'' done',
+  free_prefix b segs -> sc_inv s ->
+  zrev_expand b k s (done_of segs) = Ok (s'', done') ->
+  exists fr segs', segs = map SFree fr ++ segs' /\ (List.length fr <= b)%nat /\
+    static_eq s s'' /\ snodes s'' = rev fr ++ snodes s /\ sc_inv s'' /\
+    done' = map (fun v => (ESc (sid s), v)) fr ++ done_of segs' /\
+    free_prefix (b - List.length fr) segs'.
+Proof.
+  induction b as [|b IH]; intros k s segs s'' done' Hf Hi H.
+  - cbn in H. inversion H; subst. exists [], segs. cbn. repeat split; auto.
+  - cbn [free_prefix] in Hf. destruct segs as [|[v|id ns] r]; try contradiction.
+    cbn [zrev_expand done_of flat_map seg_entries app] in H.
+    destruct (consume s k v false false) as [[[|] s1]|e] eqn:C; [| |discriminate].
+    + pose proof (consume_inv _ _ _ _ _ _ Hi C) as Hi1.
+      apply consume_shape in C. destruct C as [Hs1 Hn1].
+      fold (done_of r) in H.
+      destruct (zrev_expand b (Nat.pred k) s1 (done_of r)) as [[s2 d2]|e] eqn:R; [|discriminate].
+      inversion H; subst s'' done'; clear H.
+      destruct (IH _ _ _ _ _ Hf Hi1 R) as [fr [segs' [Hsegs [Hlen [Hst [Hn2 [Hi2 [Hd2 Hfp]]]]]]]].
+      exists (v :: fr), segs'. subst r. cbn [map app List.length].
+      split; [reflexivity|]. split; [lia|]. split; [eapply static_eq_trans; eauto|].
+      split; [rewrite Hn2, Hn1; cbn [rev]; rewrite <- app_assoc; reflexivity|].
+      split; [exact Hi2|]. split; [|exact Hfp].
+      destruct Hs1 as (Hid&_). rewrite Hd2, Hid. reflexivity.
+    + apply consume_shape in C. destruct C as [Hs1 Hn1].
+      inversion H; subst s'' done'; clear H.
+      exists [], (SFree v :: r). cbn [map app List.length rev].
+      split; [reflexivity|]. split; [lia|]. split; [exact Hs1|]. split; [exact Hn1|].
+      split; [eapply sc_inv_static; eauto|]. split; [reflexivity|].
+      rewrite Nat.sub_0_r. cbn [free_prefix]. exact Hf.
+Qed.
+
+Lemma zrev_snd : forall b k s done s'' done',
+  zrev_expand b k s done = Ok (s'', done') -> map snd done' = map snd done.
+Proof.
+  induction b as [|b IH]; intros k s done s'' done' H; cbn in H.
+  - inversion H; reflexivity.
+  - destruct done as [|[e v] d]; [inversion H; reflexivity|].
+    destruct (consume s k v false false) as [[[|] s1]|er]; [| |discriminate].
+    + destruct (zrev_expand b (Nat.pred k) s1 d) as [[s2 d2]|er] eqn:R; [|discriminate].
+      inversion H; subst. cbn. f_equal. eapply IH; eauto.
+    + inversion H; subst. reflexivity.
+Qed.
+
+Lemma NoDup_mid : forall {A} (l l' : list A) a, NoDup (l ++ a :: l') -> NoDup (a :: l ++ l').
+Proof. intros A l l' a H. apply NoDup_remove in H. destruct H. constructor; auto. Qed.
+
+Lemma map_snd_pair : forall {A B} (e : A) (l : list B), map snd (map (fun v => (e, v)) l) = l.
+Proof. induction l; cbn; congruence. Qed.
+
+Lemma sc_good_put_other : forall store s id ns,
+  sc_good store id ns -> id <> sid s -> sc_good (put_sc s store) id ns.
+Proof.
+  intros store s id ns [s0 [Hf H]] Hne. exists s0. rewrite find_put_other by exact Hne. auto.
+Qed.
+
+Lemma sc_good_put_same : forall store s ns,
+  snodes s = ns -> sshare s = false -> sc_inv s -> sc_good (put_sc s store) (sid s) ns.
+Proof. intros store s ns Hn Hs Hi. exists s. rewrite find_put_same. auto. Qed.
+
+Lemma fresh_jump_consume : forall f i v, lval v = None ->
+  consume (fresh_jump f) i v true false = Ok (true, set_nodes (fresh_jump f) [v]).
+Proof. intros f i v H. unfold consume, can_consume. cbn. rewrite H. reflexivity. Qed.
+
+Lemma zorphan_step : forall vals st0 v todo segs e' st1,
+  zcur st0 = None ->
+  zdone st0 = done_of segs ->
+  rev (map snd (zdone st0)) ++ v :: map snd todo = vals ->
+  (forall id ns, In (SSc id ns) segs -> ns <> [] /\ sc_good (zstore st0) id ns) ->
+  (forall id, In id (todo_ids todo) -> sc_good (zstore st0) id []) ->
+  NoDup (seg_ids segs ++ todo_ids todo) ->
+  free_prefix (S (List.length (zdone st0)) - 1 - zlast st0) (SFree v :: segs) ->
+  (forall id, In id (seg_ids segs ++ todo_ids todo) -> (id < zfresh st0)%Z) ->
+  zorphan (List.length (zdone st0)) v EVal st0 = Ok (e', st1) ->
+  exists segs', Inv vals (zpush e' v st1) todo segs'.
+Proof.
+  intros vals st0 v todo segs e' st1 Hcur Hdone Hvals Hsegs Htodo Hnd Hfree Hfresh H.
+  unfold zorphan in H. rewrite Hcur in H.
+  assert (Hv : rev (map snd ((e', v) :: zdone st0)) ++ map snd todo = vals).
+  { cbn [map snd rev]. rewrite <- app_assoc. exact Hvals. }
+  destruct (lval v) as [q|] eqn:Ev.
+  - inversion H; subst e' st1; clear H.
+    exists (SFree v :: segs). constructor; cbn [zpush zdone zstore zcur zlast zfresh].
+    + rewrite Hdone. reflexivity.
+    + exact Hv.
+    + intros id ns [E|Hin]; [discriminate|]. auto.
+    + exact Htodo.
+    + exact Hnd.
+    + rewrite Hcur. discriminate.
+    + intros _. cbn [List.length]. exact Hfree.
+    + exact Hfresh.
+  - rewrite fresh_jump_consume in H by exact Ev.
+    inversion H; subst e' st1; clear H.
+    set (sf := set_nodes (fresh_jump (zfresh st0)) [v]).
+    assert (Hsf : sid sf = zfresh st0) by reflexivity.
+    assert (Hnew : forall id, In id (seg_ids segs ++ todo_ids todo) -> id <> sid sf).
+    { intros id Hin. apply Hfresh in Hin. rewrite Hsf. lia. }
+    exists (SSc (zfresh st0) [v] :: segs).
+    constructor; cbn [zpush zdone zstore zcur zlast zfresh].
+    + rewrite Hdone. reflexivity.
+    + exact Hv.
+    + intros id ns [E|Hin].
+      * inversion E; subst id ns. split; [discriminate|].
+        rewrite <- Hsf. apply sc_good_put_same; auto.
+        unfold sc_inv. cbn. constructor; auto.
+      * destruct (Hsegs _ _ Hin) as [Hne Hg]. split; auto.
+        apply sc_good_put_other; auto. apply Hnew. apply in_or_app. left.
+        unfold seg_ids. apply in_flat_map. exists (SSc id ns). split; auto. left; reflexivity.
+    + intros id Hin. apply sc_good_put_other; auto. apply Hnew. apply in_or_app. right. exact Hin.
+    + cbn [seg_ids flat_map app]. constructor; auto.
+      intros Hin. apply Hfresh in Hin. lia.
+    + intros id E. inversion E; subst. eauto.
+    + discriminate.
+    + intros id Hin. cbn [seg_ids flat_map app] in Hin. destruct Hin as [E|Hin].
+      * subst id. lia.
+      * apply Hfresh in Hin. lia.
+Qed.
+
+Lemma in_seg_ids : forall id ns segs, In (SSc id ns) segs -> In id (seg_ids segs).
+Proof.
+  intros id ns segs H. unfold seg_ids. apply in_flat_map. exists (SSc id ns). split; auto. left; reflexivity.
+Qed.
+
+Lemma NoDup_app_disj : forall {A} (l l' : list A) a, NoDup (l ++ l') -> In a l -> In a l' -> False.
+Proof.
+  intros A l; induction l as [|x l IH]; intros l' a H Hl Hl'; [contradiction|].
+  cbn in H. inversion H; subst. destruct Hl as [E|Hl].
+  - subst. apply H2. apply in_or_app. right; auto.
+  - eapply IH; eauto.
+Qed.
+
+Lemma zstep_inv : forall vals st ev todo segs st',
+  Inv vals st (ev :: todo) segs -> zstep st ev = Ok st' -> exists segs', Inv vals st' todo segs'.
+Proof.
+  intros vals st [e v] todo segs st' I H.
+  destruct I as [Hdone Hvals Hsegs Htodo Hnd Hcur Hfree Hfresh].
+  unfold zstep in H. set (i := List.length (zdone st)) in *.
+  destruct e as [|id].
+  - (* a value *)
+    cbn [todo_ids flat_map fst app] in *. fold (todo_ids todo) in *.
+    destruct (zcur st) as [id|] eqn:Ecur.
+    + destruct (Hcur id eq_refl) as [ns [r Es]]. subst segs.
+      destruct (Hsegs id ns (or_introl eq_refl)) as [Hne [s [Hf [Hid [Hn [Hsh Hi]]]]]].
+      rewrite Hf in H.
+      destruct (consume s i v true _) as [[[|] s1]|er] eqn:C; [| |discriminate].
+      * (* the active shortcut takes the value *)
+        inversion H; subst st'; clear H.
+        pose proof (consume_inv _ _ _ _ _ _ Hi C) as Hi1.
+        apply consume_shape in C. destruct C as [Hs1 Hn1].
+        assert (Hid1 : sid s1 = id) by (destruct Hs1 as (E&_); congruence).
+        assert (Hsh1 : sshare s1 = false) by (destruct Hs1 as (_&_&E&_); congruence).
+        exists (SSc id (ns ++ [v]) :: r).
+        constructor; cbn [zdone zstore zcur zlast zfresh].
+        -- rewrite Hdone. cbn [done_of flat_map seg_entries]. rewrite rev_unit. reflexivity.
+        -- cbn [map snd rev]. rewrite <- app_assoc. exact Hvals.
+        -- intros id' ns' [E|Hin].
+           ++ inversion E; subst id' ns'. split; [destruct ns; discriminate|].
+              rewrite <- Hid1. apply sc_good_put_same; auto. rewrite Hn1, Hn. reflexivity.
+           ++ destruct (Hsegs id' ns' (or_intror Hin)) as [Hne' Hg]. split; auto.
+              apply sc_good_put_other; auto. rewrite Hid1.
+              intros E. subst id'. cbn [seg_ids flat_map app] in Hnd. inversion Hnd as [|x l Hx Hl]; subst.
+              apply Hx. apply in_or_app. left. eapply in_seg_ids; eauto.
+        -- intros id' Hin. apply sc_good_put_other; auto. rewrite Hid1.
+           intros E. subst id'. cbn [seg_ids flat_map app] in Hnd. inversion Hnd as [|x l Hx Hl]; subst.
+           apply Hx. apply in_or_app. right. exact Hin.
+        -- exact Hnd.
+        -- intros id' E. inversion E; subst. eauto.
+        -- discriminate.
+        -- exact Hfresh.
+      * (* it does not: it ends here *)
+        apply consume_shape in C. destruct C as [Hs1 Hn1].
+        assert (Hid1 : sid s1 = id) by (destruct Hs1 as (E&_); congruence).
+        assert (Hsh1 : sshare s1 = false) by (destruct Hs1 as (_&_&E&_); congruence).
+        destruct (zorphan i v EVal _) as [[e' st1]|er] eqn:O; [|discriminate].
+        inversion H; subst st'; clear H.
+        refine (zorphan_step vals (mkZ (zdone st) (put_sc s1 (zstore st)) None (Nat.pred i) (zfresh st)) v todo
+                  (SSc id ns :: r) e' st1 _ _ _ _ _ _ _ _ O);
+          cbn [zdone zstore zcur zlast zfresh]; auto.
+        -- intros id' ns' Hin. destruct (Hsegs id' ns' Hin) as [Hne' Hg]. split; auto.
+           destruct Hin as [E|Hin].
+           ++ inversion E; subst id' ns'. rewrite <- Hid1. apply sc_good_put_same; auto.
+              ** congruence.
+              ** eapply sc_inv_static; eauto.
+           ++ apply sc_good_put_other; auto. rewrite Hid1.
+              intros E. subst id'. cbn [seg_ids flat_map app] in Hnd. inversion Hnd as [|x l Hx Hl]; subst.
+              apply Hx. apply in_or_app. left. eapply in_seg_ids; eauto.
+        -- intros id' Hin. apply sc_good_put_other; auto. rewrite Hid1.
+           intros E. subst id'. cbn [seg_ids flat_map app] in Hnd. inversion Hnd as [|x l Hx Hl]; subst.
+           apply Hx. apply in_or_app. right. exact Hin.
+        -- fold i. apply (free_prefix_le 1); [exact I|lia].
+    + (* no active shortcut *)
+      destruct (zorphan i v EVal st) as [[e' st1]|er] eqn:O; [|discriminate].
+      inversion H; subst st'; clear H.
+      refine (zorphan_step vals st v todo segs e' st1 _ _ _ _ _ _ _ _ O); auto.
+      fold i. specialize (Hfree eq_refl).
+      apply (free_prefix_le (S (i - 1 - zlast st))); [exact Hfree|lia].
+  - (* a shortcut bound to this position *)
+    cbn [todo_ids flat_map fst app] in *. fold (todo_ids todo) in *.
+    assert (Hidt : In id (id :: todo_ids todo)) by (left; reflexivity).
+    destruct (Htodo id Hidt) as [s [Hf [Hid [Hn [Hsh Hi]]]]].
+    rewrite Hf in H.
+    set (le := match zcur st with Some _ => Nat.pred i | None => zlast st end) in *.
+    assert (Hnot : ~ In id (seg_ids segs ++ todo_ids todo)).
+    { apply NoDup_remove in Hnd. tauto. }
+    assert (Hnd' : NoDup (seg_ids segs ++ todo_ids todo)).
+    { apply NoDup_remove in Hnd. tauto. }
+    destruct (consume s i v true _) as [[[|] s1]|er] eqn:C; [| |discriminate].
+    + pose proof (consume_inv _ _ _ _ _ _ Hi C) as Hi1.
+      apply consume_shape in C. destruct C as [Hs1 Hn1].
+      rewrite Hn in Hn1. cbn [app] in Hn1.
+      destruct (zrev_expand _ (Nat.pred i) s1 (zdone st)) as [[s2 d2]|er] eqn:R; [|discriminate].
+      inversion H; subst st'; clear H.
+      pose proof (zrev_snd _ _ _ _ _ _ R) as Hsnd.
+      rewrite Hdone in R.
+      assert (Hfp : free_prefix (if Nat.ltb 1 i then Nat.pred i - le else 0) segs).
+      { destruct (Nat.ltb 1 i); [|exact I]. subst le. destruct (zcur st) eqn:Ec.
+        - rewrite Nat.sub_diag. exact I.
+        - apply (free_prefix_le (i - 1 - zlast st)); [apply Hfree; reflexivity|lia]. }
+      destruct (zrev_ok _ _ _ _ _ _ Hfp Hi1 R) as [fr [segs' [Es [Hlen [Hs2 [Hn2 [Hi2 [Hd2 _]]]]]]]].
+      assert (Hid2 : sid s2 = id).
+      { destruct Hs1 as (E1&_). destruct Hs2 as (E2&_). congruence. }
+      assert (Hid1 : sid s1 = id) by (destruct Hs1 as (E1&_); congruence).
+      assert (Hsh2 : sshare s2 = false).
+      { destruct Hs1 as (_&_&E1&_). destruct Hs2 as (_&_&E2&_). congruence. }
+      exists (SSc id (rev fr ++ [v]) :: segs').
+      assert (Hids : seg_ids segs = seg_ids segs') by (rewrite Es; apply seg_ids_free).
+      constructor; cbn [zdone zstore zcur zlast zfresh].
+      * rewrite Hd2, Hid1. cbn [done_of flat_map seg_entries].
+        rewrite rev_app_distr, rev_involutive. reflexivity.
+      * cbn [map snd]. rewrite Hsnd. cbn [rev]. rewrite <- app_assoc. exact Hvals.
+      * intros id' ns' [E|Hin].
+        -- inversion E; subst id' ns'. split; [destruct (rev fr); discriminate|].
+           rewrite <- Hid2. apply sc_good_put_same; auto. rewrite Hn2, Hn1. reflexivity.
+        -- assert (Hin' : In (SSc id' ns') segs) by (rewrite Es; apply in_or_app; right; exact Hin).
+           destruct (Hsegs id' ns' Hin') as [Hne' Hg]. split; auto.
+           apply sc_good_put_other; auto. rewrite Hid2. intros E. subst id'.
+           apply Hnot. apply in_or_app. left. eapply in_seg_ids; eauto.
+      * intros id' Hin. apply sc_good_put_other; [apply Htodo; right; exact Hin|].
+        rewrite Hid2. intros E. subst id'. apply Hnot. apply in_or_app. right. exact Hin.
+      * cbn [seg_ids flat_map app]. fold (seg_ids segs'). rewrite <- Hids. apply NoDup_mid. exact Hnd.
+      * intros id' E. inversion E; subst. eauto.
+      * discriminate.
+      * intros id' Hin. apply Hfresh. cbn [seg_ids flat_map app] in Hin. fold (seg_ids segs') in Hin.
+        rewrite <- Hids in Hin. destruct Hin as [E|Hin].
+        -- subst id'. apply in_or_app. right. left. reflexivity.
+        -- apply in_app_or in Hin. apply in_or_app. destruct Hin; [left|right; right]; auto.
+    + (* the shortcut cannot even take the value it was bound to: it dissolves *)
+      apply consume_shape in C. destruct C as [Hs1 Hn1].
+      assert (Hid1 : sid s1 = id) by (destruct Hs1 as (E1&_); congruence).
+      inversion H; subst st'; clear H.
+      exists (SFree v :: segs).
+      constructor; cbn [zdone zstore zcur zlast zfresh].
+      * rewrite Hdone. reflexivity.
+      * cbn [map snd rev]. rewrite <- app_assoc. exact Hvals.
+      * intros id' ns' [E|Hin]; [discriminate|].
+        destruct (Hsegs id' ns' Hin) as [Hne' Hg]. split; auto.
+        apply sc_good_put_other; auto. rewrite Hid1. intros E. subst id'.
+        apply Hnot. apply in_or_app. left. eapply in_seg_ids; eauto.
+      * intros id' Hin. apply sc_good_put_other; [apply Htodo; right; exact Hin|].
+        rewrite Hid1. intros E. subst id'. apply Hnot. apply in_or_app. right. exact Hin.
+      * exact Hnd'.
+      * discriminate.
+      * intros _. cbn [List.length]. fold i. subst le. destruct (zcur st) eqn:Ec.
+        -- apply (free_prefix_le 1); [exact I|lia].
+        -- apply (free_prefix_le (S (i - 1 - zlast st))); [apply Hfree; reflexivity|lia].
+      * intros id' Hin. apply Hfresh. apply in_app_or in Hin. apply in_or_app.
+        destruct Hin; [left|right; right]; auto.
+Qed.
+
+Lemma zloop_inv : forall vals todo st segs st',
+  Inv vals st todo segs -> zloop todo st = Ok st' -> exists segs', Inv vals st' [] segs'.
+Proof.
+  intros vals todo; induction todo as [|ev todo IH]; intros st segs st' I H; cbn in H.
+  - inversion H; subst. eauto.
+  - destruct (zstep st ev) as [st1|e] eqn:S; [|discriminate].
+    destruct (zstep_inv _ _ _ _ _ _ I S) as [segs1 I1]. eapply IH; eauto.
+Qed.
+
+(* --- binding the shortcuts to their sites *)
+Definition cache_ids (c : list entry) : list Z :=
+  flat_map (fun e => match e with ESc id => [id] | EVal => [] end) c.
+
+Lemma set_nth_length : forall {A} p (x : A) l, List.length (set_nth p x l) = List.length l.
+Proof. induction p; intros x [|a l]; cbn; auto. Qed.
+
+Lemma cache_ids_set_in : forall c p j id,
+  In id (cache_ids (set_nth p (ESc j) c)) -> id = j \/ In id (cache_ids c).
+Proof.
+  induction c as [|a c IH]; intros p j id H; [destruct p; contradiction|].
+  destruct p; cbn [set_nth cache_ids flat_map] in *.
+  - cbn in H. destruct H as [E|H]; [left; auto|right]. apply in_or_app. right. exact H.
+  - apply in_app_or in H. destruct H as [H|H].
+    + right. apply in_or_app. left. exact H.
+    + destruct (IH _ _ _ H) as [E|H']; [left; auto|right]. apply in_or_app. right. exact H'.
+Qed.
+
+Lemma NoDup_app_r : forall {A} (l l' : list A), NoDup (l ++ l') -> NoDup l'.
+Proof. induction l; cbn; intros l' H; auto. inversion H; subst; auto. Qed.
+
+Lemma cache_ids_set_nodup : forall c p j,
+  NoDup (cache_ids c) -> ~ In j (cache_ids c) -> NoDup (cache_ids (set_nth p (ESc j) c)).
+Proof.
+  induction c as [|a c IH]; intros p j Hn Hj; [destruct p; constructor|].
+  destruct p; cbn [set_nth cache_ids flat_map] in *.
+  - cbn. constructor.
+    + intros H. apply Hj. apply in_or_app. right. exact H.
+    + eapply NoDup_app_r; eauto.
+  - destruct a as [|i]; cbn [app] in *.
+    + apply IH; auto.
+    + inversion Hn as [|x l Hx Hl]; subst. constructor.
+      * intros H. apply cache_ids_set_in in H. destruct H as [E|H]; [|contradiction].
+        subst. apply Hj. left; reflexivity.
+      * apply IH; auto. intros H. apply Hj. right. exact H.
+Qed.
+
+Lemma bind_ok : forall shorts vals cache store cache' store',
+  bind shorts vals cache store = (cache', store') ->
+  NoDup (map sid shorts) ->
+  (forall id, In id (cache_ids cache) -> ~ In id (map sid shorts)) ->
+  NoDup (cache_ids cache) ->
+  (forall id, In id (cache_ids cache) -> sc_good store id []) ->
+  List.length cache' = List.length cache /\ NoDup (cache_ids cache') /\
+  (forall id, In id (cache_ids cache') ->
+     sc_good store' id [] /\ (In id (cache_ids cache) \/ In id (map sid shorts))).
+Proof.
+  induction shorts as [|s r IH]; intros vals cache store cache' store' H Hnd Hdis Hc Hg; cbn [bind] in H.
+  - inversion H; subst. split; [reflexivity|]. split; [exact Hc|]. intros id Hin. split; auto.
+  - cbn [map] in Hnd. inversion Hnd as [|x l Hs Hr]; subst.
+    destruct (first_bound (snodes s) vals) as [p|].
+    + set (sc0 := set_share (set_nodes s []) false) in *.
+      assert (Hsid : sid sc0 = sid s) by reflexivity.
+      assert (Hnew : ~ In (sid s) (cache_ids cache)).
+      { intros Hin. apply (Hdis _ Hin). left; reflexivity. }
+      destruct (IH vals _ _ _ _ H Hr) as [Hlen [Hnd' Hg']].
+      * intros id Hin Hin'. apply cache_ids_set_in in Hin. destruct Hin as [E|Hin].
+        -- subst. contradiction.
+        -- apply (Hdis _ Hin). right; exact Hin'.
+      * apply cache_ids_set_nodup; auto.
+      * intros id Hin. apply cache_ids_set_in in Hin. destruct Hin as [E|Hin].
+        -- subst id. rewrite <- Hsid. apply sc_good_put_same; auto. apply sc_inv_empty. reflexivity.
+        -- apply sc_good_put_other; auto. rewrite Hsid. intros E. subst. contradiction.
+      * split; [rewrite Hlen; apply set_nth_length|]. split; [exact Hnd'|].
+        intros id Hin. destruct (Hg' id Hin) as [G [Hi|Hi]]; split; auto.
+        -- apply cache_ids_set_in in Hi. destruct Hi as [E|Hi]; [right; left; auto|left; auto].
+        -- right; right; exact Hi.
+    + destruct (IH vals _ _ _ _ H Hr) as [Hlen [Hnd' Hg']]; auto.
+      * intros id Hin Hin'. apply (Hdis _ Hin). right; exact Hin'.
+      * intros id Hin. apply sc_good_put_other; auto. intros E. subst. apply (Hdis _ Hin). left; reflexivity.
+      * split; [exact Hlen|]. split; [exact Hnd'|].
+        intros id Hin. destruct (Hg' id Hin) as [G [Hi|Hi]]; split; auto. right; right; exact Hi.
+Qed.
+
+Lemma todo_ids_combine : forall c (vals : list leaf), List.length c = List.length vals ->
+  todo_ids (combine c vals) = cache_ids c.
+Proof.
+  induction c as [|e c IH]; intros [|v vals] H; cbn in *; try discriminate; auto.
+  rewrite IH by lia. reflexivity.
+Qed.
+
+Lemma map_snd_combine : forall {A B} (a : list A) (b : list B), List.length a = List.length b ->
+  map snd (combine a b) = b.
+Proof. induction a; intros [|y b] H; cbn in *; try discriminate; auto. f_equal. apply IHa. lia. Qed.
+
+(* --- rebuilding the node list *)
+Definition fwd_entries (g : seg) : list (entry * leaf) :=
+  match g with SFree v => [(EVal, v)] | SSc id ns => map (fun v => (ESc id, v)) ns end.
+Definition seg_leaves (g : seg) : list leaf := match g with SFree v => [v] | SSc _ ns => ns end.
+
+Lemma rev_done_of : forall segs, rev (done_of segs) = flat_map fwd_entries (rev segs).
+Proof.
+  induction segs as [|g r IH]; [reflexivity|].
+  cbn [done_of flat_map rev]. fold (done_of r). rewrite rev_app_distr, IH, flat_map_app.
+  cbn [flat_map]. rewrite app_nil_r. f_equal.
+  destruct g as [v|id ns]; cbn; [reflexivity|]. rewrite <- map_rev, rev_involutive. reflexivity.
+Qed.
+
+Lemma seg_ids_rev_in : forall segs id, In id (seg_ids (rev segs)) <-> In id (seg_ids segs).
+Proof.
+  intros segs id. unfold seg_ids. rewrite !in_flat_map. split; intros [g [H1 H2]]; exists g; split; auto.
+  - apply in_rev; auto.
+  - apply -> in_rev; auto.
+Qed.
+
+Lemma NoDup_snoc : forall {A} (l : list A) a, NoDup l -> ~ In a l -> NoDup (l ++ [a]).
+Proof.
+  induction l as [|x l IH]; intros a Hn Ha; cbn.
+  - constructor; auto.
+  - inversion Hn; subst. constructor.
+    + intros H. apply in_app_or in H. destruct H as [H|[H|[]]]; [contradiction|].
+      subst. apply Ha. left; reflexivity.
+    + apply IH; auto. intros H. apply Ha. right; exact H.
+Qed.
+
+Lemma seg_ids_rev_nodup : forall segs, NoDup (seg_ids segs) -> NoDup (seg_ids (rev segs)).
+Proof.
+  induction segs as [|g r IH]; intros H; [constructor|].
+  cbn [rev]. unfold seg_ids in *. rewrite flat_map_app. cbn [flat_map] in *. rewrite app_nil_r.
+  destruct g as [v|id ns]; cbn [app] in *.
+  - rewrite app_nil_r. auto.
+  - inversion H as [|x l Hx Hl]; subst. apply NoDup_snoc; auto.
+    intros Hin. apply Hx. apply (proj1 (seg_ids_rev_in r id)). exact Hin.
+Qed.
+
+Lemma collect_skip : forall id l rest store,
+  collect (map (fun v => (ESc id, v)) l ++ rest) store (Some id) = collect rest store (Some id).
+Proof.
+  induction l as [|v l IH]; intros; cbn [map app collect]; [reflexivity|].
+  rewrite Z.eqb_refl. apply IH.
+Qed.
+
+Definition good_node (n : lnode) : Prop :=
+  match n with NSc s => sshare s = false /\ sc_inv s /\ snodes s <> [] | NVal _ => True end.
+
+Lemma collect_fsegs : forall fsegs store lastsc,
+  NoDup (seg_ids fsegs) ->
+  (forall id, lastsc = Some id -> ~ In id (seg_ids fsegs)) ->
+  (forall id ns, In (SSc id ns) fsegs -> ns <> [] /\ sc_good store id ns) ->
+  exists nodes scs, collect (flat_map fwd_entries fsegs) store lastsc = (nodes, scs) /\
+    Forall2 (fun g n => lnode_leaves n = seg_leaves g /\ good_node n) fsegs nodes.
+Proof.
+  induction fsegs as [|g r IH]; intros store lastsc Hnd Hl Hg.
+  - exists [], []. split; [reflexivity|constructor].
+  - destruct g as [v|id ns].
+    + cbn [seg_ids flat_map app] in *. fold (seg_ids r) in *.
+      destruct (IH store lastsc Hnd Hl) as [nodes [scs [Hc Hf]]].
+      { intros id ns Hin. apply Hg. right; exact Hin. }
+      exists (NVal v :: nodes), scs. cbn [flat_map fwd_entries app collect].
+      fold (flat_map fwd_entries r). rewrite Hc. split; [reflexivity|].
+      constructor; [split; [reflexivity|exact I]|exact Hf].
+    + cbn [seg_ids flat_map app] in *. fold (seg_ids r) in *.
+      inversion Hnd as [|x l Hx Hnd']; subst.
+      destruct (Hg id ns (or_introl eq_refl)) as [Hne [s [Hfind [Hid [Hn [Hsh Hi]]]]]].
+      destruct (IH store (Some id) Hnd') as [nodes [scs [Hc Hf]]].
+      { intros id' E. inversion E; subst. exact Hx. }
+      { intros id' ns' Hin. apply Hg. right; exact Hin. }
+      exists (NSc s :: nodes), (s :: scs).
+      cbn [flat_map fwd_entries]. fold (flat_map fwd_entries r).
+      destruct ns as [|n0 ns']; [contradiction|].
+      cbn [map app collect].
+      assert (Hsame : match lastsc with Some l => Z.eqb l id | None => false end = false).
+      { destruct lastsc as [l|]; [|reflexivity]. apply Z.eqb_neq. intros E.
+        apply (Hl l eq_refl). left. symmetry. exact E. }
+      rewrite Hsame, Hfind, collect_skip, Hc. split; [reflexivity|].
+      constructor; [|exact Hf]. split; [exact Hn|]. cbn [good_node]. rewrite Hn.
+      split; [exact Hsh|]. split; [exact Hi|discriminate].
+Qed.
+
+Lemma map_snd_fwd : forall fsegs, map snd (flat_map fwd_entries fsegs) = flat_map seg_leaves fsegs.
+Proof.
+  induction fsegs as [|g r IH]; [reflexivity|]. cbn [flat_map]. rewrite map_app, IH. f_equal.
+  destruct g; cbn; [reflexivity|]. apply map_snd_pair.
+Qed.
+
+Lemma flatten_Forall2 : forall fsegs nodes,
+  Forall2 (fun g n => lnode_leaves n = seg_leaves g /\ good_node n) fsegs nodes ->
+  flatten nodes = flat_map seg_leaves fsegs /\ Forall good_node nodes.
+Proof.
+  intros fsegs nodes H; induction H as [|g n fs ns [H1 H2] Hf [IH1 IH2]]; [split; [reflexivity|constructor]|].
+  split; [|constructor; auto]. cbn [flatten flat_map]. fold (flatten ns). rewrite H1, IH1. reflexivity.
+Qed.
+
+Lemma good_nosh : forall nodes, Forall good_node nodes -> nosh nodes.
+Proof.
+  intros nodes H. unfold nosh. eapply Forall_impl; [|exact H].
+  intros [l|s]; cbn; tauto.
+Qed.
+
+Lemma flatten_app : forall a b, flatten (a ++ b) = flatten a ++ flatten b.
+Proof. intros. unfold flatten. apply flat_map_app. Qed.
+
+Lemma cache_ids_blank : forall (vals : list leaf), cache_ids (map (fun _ : leaf => EVal) vals) = [].
+Proof. induction vals; cbn; auto. Qed.
+
+Lemma update_nonempty : forall shorts vals f0, vals <> [] ->
+  update shorts vals f0 =
+  (let (cache0, store0) := bind shorts vals (map (fun _ => EVal) vals) [] in
+   match zloop (combine cache0 vals) (mkZ [] store0 None 0 f0) with
+   | Err e => Err e
+   | Ok st =>
+       let (ns, ss) := collect (rev (zdone st)) (zstore st) None in
+       match rev ns with
+       | last :: _ =>
+           if is_orphan_jump last then Ok (mkList (removelast ns) (removelast ss))
+           else Ok (mkList ns ss)
+       | [] => Ok (mkList ns ss)
+       end
+   end).
+Proof. intros shorts [|v vals] f0 H; [contradiction|reflexivity]. Qed.
+
+(* update_with_new_values covers the new values, one node per position; the only values it leaves out are
+   jumps at the very end (a jump "the user left off") *)
+Theorem update_partition : forall shorts vals f0 l,
+  NoDup (map sid shorts) -> (forall s, In s shorts -> (sid s < f0)%Z) ->
+  update shorts vals f0 = Ok l ->
+  Forall good_node (lnodes l) /\
+  exists tl, vals = flatten (lnodes l) ++ tl /\ Forall (fun x => lval x = None) tl.
+Proof.
+  intros shorts vals f0 l Hnd Hlt H.
+  destruct (list_eq_dec (fun a b : unit => left (match a, b with tt, tt => eq_refl end)) (map (fun _ => tt) vals) [])
+    as [Ev|Ev].
+  { destruct vals; [|discriminate]. cbn in H. inversion H; subst. cbn. split; [constructor|].
+    exists []. split; [reflexivity|constructor]. }
+  rewrite update_nonempty in H by (intros E; subst; apply Ev; reflexivity). clear Ev.
+  destruct (bind shorts vals (map (fun _ => EVal) vals) []) as [cache0 store0] eqn:B.
+  pose proof (cache_ids_blank vals) as Hc0.
+  destruct (bind_ok _ _ _ _ _ _ B Hnd) as [Hlen [Hndc Hgc]].
+  { rewrite Hc0. intros id []. }
+  { rewrite Hc0. constructor. }
+  { rewrite Hc0. intros id []. }
+  rewrite map_length in Hlen.
+  destruct (zloop (combine cache0 vals) (mkZ [] store0 None 0 f0)) as [st|e] eqn:L; [|discriminate].
+  assert (I0 : Inv vals (mkZ [] store0 None 0 f0) (combine cache0 vals) []).
+  { constructor; cbn [zdone zstore zcur zlast zfresh seg_ids flat_map app].
+    - reflexivity.
+    - cbn. apply map_snd_combine. exact Hlen.
+    - intros id ns [].
+    - intros id Hin. rewrite todo_ids_combine in Hin by exact Hlen. apply Hgc. exact Hin.
+    - rewrite todo_ids_combine by exact Hlen. exact Hndc.
+    - discriminate.
+    - intros _. exact I.
+    - intros id Hin. rewrite todo_ids_combine in Hin by exact Hlen.
+      destruct (Hgc id Hin) as [_ [Hi|Hi]]; [rewrite Hc0 in Hi; contradiction|].
+      apply in_map_iff in Hi. destruct Hi as [s [E Hs]]. subst. auto. }
+  destruct (zloop_inv _ _ _ _ _ I0 L) as [segs I1].
+  destruct I1 as [Hdone Hvals Hsegs _ Hndup _ _ _].
+  rewrite Hdone, rev_done_of in H.
+  destruct (collect_fsegs (rev segs) (zstore st) None) as [nodes [scs [Hc Hf]]].
+  { cbn [todo_ids flat_map] in Hndup. rewrite app_nil_r in Hndup. apply seg_ids_rev_nodup. exact Hndup. }
+  { discriminate. }
+  { intros id ns Hin. apply Hsegs. apply in_rev. exact Hin. }
+  rewrite Hc in H.
+  destruct (flatten_Forall2 _ _ Hf) as [Hfl Hgood].
+  assert (Hall : flatten nodes = vals).
+  { rewrite Hfl, <- map_snd_fwd, <- rev_done_of, <- Hdone, map_rev.
+    cbn [map] in Hvals. rewrite app_nil_r in Hvals. exact Hvals. }
+  destruct (rev nodes) as [|last rn] eqn:Er.
+  - inversion H; subst l. cbn [lnodes]. split; [exact Hgood|].
+    exists []. rewrite app_nil_r. split; [symmetry; exact Hall|constructor].
+  - apply rev_eq_cons in Er.
+    destruct (is_orphan_jump last) eqn:Eo; inversion H; subst l; clear H; cbn [lnodes].
+    + rewrite Er. rewrite removelast_last. rewrite Er in Hgood, Hall.
+      apply Forall_app in Hgood. destruct Hgood as [Hg1 Hg2]. split; [exact Hg1|].
+      exists (lnode_leaves last). rewrite flatten_app in Hall. cbn [flatten flat_map] in Hall.
+      rewrite app_nil_r in Hall. split; [symmetry; exact Hall|].
+      destruct last as [x|s]; [discriminate|]. cbn [is_orphan_jump] in Eo.
+      inversion Hg2 as [|n ns Hgs _]; subst. destruct Hgs as [_ [Hi _]].
+      unfold sc_inv in Hi. destruct (skind s); try discriminate. exact Hi.
+    + split; [exact Hgood|]. exists []. rewrite app_nil_r. split; [symmetry; exact Hall|constructor].
+Qed.
+
+(* ================================================================== Part 5: the re-compressor *)
+Lemma vclose_jump_iff : forall x y, vclose x y = true -> (x = VJ <-> y = VJ).
+Proof. intros [q| |a b n j] [q'| |a' b' n' j'] H; cbn in H; try discriminate; split; intros E; auto; discriminate. Qed.
+
+Lemma strip_nil_iff : forall a b, vlist_close a b = true ->
+  (strip_trailing_jumps a = [] <-> strip_trailing_jumps b = []) /\
+  vlist_close (strip_trailing_jumps a) (strip_trailing_jumps b) = true.
+Proof.
+  induction a as [|x a IH]; intros [|y b] H; cbn [vlist_close] in H; try discriminate.
+  - cbn. tauto.
+  - apply andb_true_iff in H. destruct H as [Hx Hr].
+    destruct (IH b Hr) as [Hn Hc]. pose proof (vclose_jump_iff x y Hx) as Hj.
+    cbn [strip_trailing_jumps].
+    destruct (strip_trailing_jumps a) as [|a0 ar] eqn:Ea; destruct (strip_trailing_jumps b) as [|b0 br] eqn:Eb.
+    + destruct x, y; cbn in Hx; try discriminate; cbn; try rewrite Hx; try tauto;
+        split; try tauto; split; intros; discriminate.
+    + exfalso. destruct Hn as [Hn _]. specialize (Hn eq_refl). discriminate.
+    + exfalso. destruct Hn as [_ Hn]. specialize (Hn eq_refl). discriminate.
+    + assert (E1 : match x with VJ => x :: a0 :: ar | _ => x :: a0 :: ar end = x :: a0 :: ar) by (destruct x; reflexivity).
+      assert (E2 : match y with VJ => y :: b0 :: br | _ => y :: b0 :: br end = y :: b0 :: br) by (destruct y; reflexivity).
+      destruct x, y; cbn in Hx; try discriminate; cbn [vlist_close]; (split; [split; intros; discriminate|]);
+        cbn [vclose]; try rewrite Hx; cbn; exact Hc.
+Qed.
+
+Lemma strip_app_jumps : forall a tl, Forall (fun v => v = VJ) tl ->
+  strip_trailing_jumps (a ++ tl) = strip_trailing_jumps a.
+Proof.
+  induction a as [|x a IH]; intros tl H.
+  - cbn [app]. induction H as [|v tl Hv Ht IHt]; [reflexivity|]. subst v. cbn. rewrite IHt. reflexivity.
+  - cbn [app strip_trailing_jumps]. rewrite IH by exact H. reflexivity.
+Qed.
+
+(* the written list expands to exactly the new values, one per position, jumps staying jumps (jumps at the very end
+   may be left off) - whenever every node of the rebuilt list is printed soundly *)
+Theorem recompress_partial : forall shorts vals f0 l,
+  NoDup (map sid shorts) -> (forall s, In s shorts -> (sid s < f0)%Z) ->
+  update shorts vals f0 = Ok l -> format_ok l = true ->
+  recompress_ok shorts vals f0 = true.
+Proof.
+  intros shorts vals f0 l Hnd Hlt Hu Hok.
+  destruct (update_partition _ _ _ _ Hnd Hlt Hu) as [Hgood [tl [Hv Htl]]].
+  destruct (format_sound l (good_nosh _ Hgood) Hok) as [ps [out [Hf [Hr Hc]]]].
+  unfold recompress_ok. rewrite Hu, Hf, Hr.
+  rewrite Hv, map_app.
+  rewrite strip_app_jumps.
+  - apply strip_nil_iff. exact Hc.
+  - apply Forall_map. eapply Forall_impl; [|exact Htl]. intros a Ha. unfold leaf_val. rewrite Ha. reflexivity.
+Qed.
+
+(* ------------------------------------------------------------------ per kind, as read by the parser *)
+Lemma read_R : forall q n,
+  parse_list [TNum q; TRep n] = POk [PSc KR (VQ q :: repeat (VQ q) (cnt n)) false].
+Proof. reflexivity. Qed.
+Lemma read_J : forall n, parse_list [TJmp n] = POk [PSc KJ (repeat VJ (cnt n)) false].
+Proof. reflexivity. Qed.
+Lemma read_M : forall q x, parse_list [TNum q; TMul x] = POk [PSc KM [VQ q; VQ (q * x)] false].
+Proof. reflexivity. Qed.
+Lemma read_I : forall a b n, qzero b = false ->
+  parse_list [TNum a; TInt n; TNum b] = POk [PSc KI (VQ a :: expand_interpolate a b (cnt n) ++ [VQ b]) false].
+Proof. intros a b n H. unfold parse_list. cbn [parse_aux app]. rewrite H. reflexivity. Qed.
+Lemma read_L : forall a b n, qzero b = false -> qpos a && qpos b = true ->
+  parse_list [TNum a; TLog n; TNum b] = POk [PSc KL (VQ a :: log_steps a b (cnt n) 1 (cnt n) ++ [VQ b]) false].
+Proof.
+  intros a b n H Hp. unfold parse_list. cbn [parse_aux app]. rewrite H.
+  unfold attach, last_of. cbn [rev app]. rewrite Hp. rewrite expand_log_spec. reflexivity.
+Qed.
+(* a shortcut chained onto another one starts from the other one's last value *)
+Lemma rev_repeat' : forall {A} (v : A) n, rev (repeat v n) = repeat v n.
+Proof. induction n; [reflexivity|]. cbn [repeat rev]. rewrite IHn. symmetry. apply repeat_cons. Qed.
+
+Lemma read_chain : forall q n m,
+  parse_list [TNum q; TRep n; TRep m]
+  = POk [PSc KR (VQ q :: repeat (VQ q) (cnt n)) false; PSc KR (repeat (VQ q) (cnt m)) true].
+Proof.
+  intros q n m. unfold parse_list, attach, last_of, expand_repeat, drop_last. cbn [parse_aux app rev removelast].
+  unfold attach, last_of, expand_repeat, drop_last. cbn [app rev removelast].
+  rewrite rev_repeat', <- repeat_cons. reflexivity.
+Qed.
